@@ -2,6 +2,7 @@ package h
 
 import (
 	"fmt"
+	"strings"
 )
 
 func init() {
@@ -117,7 +118,30 @@ func caseC05(c *Ctx) {
 	p.Scale(2, "Add", "Remove", "Exchange")
 	p.Zero("RegisterType", "CacheRegister", "CacheUnregister")
 	o := Opts{Model: true, Targets: true, Track: true, Sweep: c.Case%3 == 0, NoTrans: true}
-	s := RunHistory(c.R, cfg, o, p)
+	s := NewSess(cfg, o)
+	g := NewGen(c.R, s, p)
+	rows := []FaultRow{}
+	for _, r := range FaultTable() {
+		if strings.HasPrefix(r.Name, "target.dead.") {
+			rows = append(rows, r)
+		}
+	}
+	next := c.Case % len(rows)
+	for i := 0; i < p.Steps && !s.Failed(); i++ {
+		if i > 20 && c.R.Chance(0.12) {
+			// a dead or recycled handle as relation target, through every target-taking entry point in turn
+			for k := 0; k < len(rows); k++ {
+				row := &rows[(next+k)%len(rows)]
+				if op := row.Gen(g); op != nil {
+					next = (next + k + 1) % len(rows)
+					InjectFault(s, row, op)
+					break
+				}
+			}
+			continue
+		}
+		s.Do(g.Next())
+	}
 	n := s.Cov.N
 	finish(c, s, n["target_retained"] >= 1 && n["relation_reset"] >= 1)
 }
